@@ -83,6 +83,40 @@ def json_nodes(doc, limit=4000):
     return out
 
 
+def json_apply(holder, key, action):
+    """One structural fault in a slot of a JSON document; False when it does not apply."""
+    cur = holder[key]
+    number = isinstance(cur, (int, float)) and not isinstance(cur, bool)
+    if action == "del":
+        if isinstance(holder, list):
+            holder.pop(key)
+        else:
+            del holder[key]
+    elif action == "big":
+        if not number:
+            return False
+        holder[key] = 10**10
+    elif action == "neg":
+        if not number:
+            return False
+        holder[key] = -1
+    elif action == "inc":
+        if not isinstance(cur, int) or isinstance(cur, bool):
+            return False
+        holder[key] = cur + 1
+    elif action == "null":
+        holder[key] = None
+    elif action == "str":
+        holder[key] = "x"
+    elif action == "list":
+        holder[key] = []
+    elif action == "dict":
+        holder[key] = {}
+    else:
+        raise ValueError(action)
+    return True
+
+
 def mutate(data: bytes, op: str, args, self_name=None) -> bytes:
     """Deterministic fault operators (G-bytes)."""
     n = len(data)
@@ -162,6 +196,20 @@ def mutate(data: bytes, op: str, args, self_name=None) -> bytes:
                     payload = mutate(payload, iop, iargs, self_name=self_name)
                 zout.writestr(inf.filename, payload)
         return out.getvalue()
+    if op == "json2":  # two structural faults in sibling slots of one JSON object (e.g. drop a key AND inflate a count)
+        i1, a1, i2, a2 = args
+        parts = split_json(data)
+        if parts is None:
+            return data
+        doc, rebuild = parts
+        nodes = json_nodes(doc)
+        if max(i1, i2) >= len(nodes) or nodes[i1][0] is not nodes[i2][0] or i1 == i2:
+            return data
+        # list positions shift when an earlier element is popped: the later slot first
+        for idx, action in sorted(((i1, a1), (i2, a2)), reverse=True):
+            if json_apply(nodes[idx][0], nodes[idx][1], action) is False:
+                return data
+        return rebuild(doc)
     if op == "json":  # structural fault in the JSON document of a gltf / glb file
         idx, action = args
         parts = split_json(data)
@@ -172,34 +220,8 @@ def mutate(data: bytes, op: str, args, self_name=None) -> bytes:
         if idx >= len(nodes):
             return data
         holder, key = nodes[idx]
-        cur = holder[key]
-        if action == "del":
-            if isinstance(holder, list):
-                holder.pop(key)
-            else:
-                del holder[key]
-        elif action == "big":
-            if isinstance(cur, bool) or not isinstance(cur, (int, float)):
-                return data
-            holder[key] = 10**10
-        elif action == "neg":
-            if isinstance(cur, bool) or not isinstance(cur, (int, float)):
-                return data
-            holder[key] = -1
-        elif action == "inc":
-            if isinstance(cur, bool) or not isinstance(cur, int):
-                return data
-            holder[key] = cur + 1
-        elif action == "null":
-            holder[key] = None
-        elif action == "str":
-            holder[key] = "x"
-        elif action == "list":
-            holder[key] = []
-        elif action == "dict":
-            holder[key] = {}
-        else:
-            raise ValueError(action)
+        if json_apply(holder, key, action) is False:
+            return data
         return rebuild(doc)
     if op == "raw":  # arbitrary bytes given as hex
         return bytes.fromhex(args[0])
